@@ -6,6 +6,7 @@ import (
 	"go.uber.org/zap/verif/props/c07"
 	"go.uber.org/zap/verif/props/c10"
 	"go.uber.org/zap/verif/props/c11"
+	"go.uber.org/zap/verif/props/c12"
 	"go.uber.org/zap/verif/props/c13"
 	"go.uber.org/zap/verif/props/c14"
 	"go.uber.org/zap/verif/props/c15"
@@ -32,5 +33,6 @@ func init() {
 	register("C15", "exploration", c15.Run, nil)
 	register("C19", "fault_enumeration", c19.Run, nil)
 	register("C11", "exploration", c11.Run, c11.Child)
+	register("C12", "fault_enumeration", c12.Run, c12.Child)
 	register("C02", "exploration", encjson.Run02, nil)
 }
